@@ -25,6 +25,44 @@ def validated_param(e, method):
     return None
 
 
+def v_paths(ctx, tname, adtp, maxn):
+    """V-CTOR by path-sensitive evaluation of try_from_floats' MIR (rules/pathval.py).  Proven when on EVERY path:
+      - the outcomes of the next() calls are Some^j None (j < maxn) or Some^maxn, and no next() result is left unexamined;
+      - if a validation failed the function returns an Err (from_residual / Err(..)), never an Ok;
+      - otherwise it returns Ok(new_j(x0..x(j-1))) with x_i the payload of the i-th next(), validated on this path;
+    and every j in 0..maxn occurs.  Returns (description, None) or (None, reason): "not proven" is never a violation by itself."""
+    import pathval
+    f = ctx.facts
+    bodies = [b for p, b in f.mir.items() if p == adtp + "::try_from_floats"]
+    if len(bodies) != 1:
+        return None, "no MIR body"
+    res, why = pathval.paths(bodies[0], ctor_prefixes=(adtp + "::new_",))
+    if res is None:
+        return None, why
+    seen = set()
+    for events, ret, nexts, valid in res:
+        failed = any(e[0] in ("validate", "in01") and not e[2] for e in events)
+        is_ok = ret[0] == "agg" and ret[2] == "Ok"
+        if failed:
+            if is_ok or ret[0] not in ("err", "agg"):
+                return None, "a path with a failed validation returns %s" % pathval.show(ret)
+            continue
+        outs = [e[2] for e in events if e[0] == "next"]
+        idx = [e[1] for e in events if e[0] == "next"]
+        if idx != list(range(nexts)):
+            return None, "a next() result is not examined (or examined twice) on a path"
+        j = len([o for o in outs if o == "Some"])
+        if outs != ["Some"] * j + (["None"] if j < maxn else []) or j > maxn:
+            return None, "next() outcomes %s on a path" % outs
+        if not (is_ok and len(ret[4]) == 1 and ret[4][0][0] == "ctor" and ret[4][0][1] == NAMES[j] and len(ret[4][0][2]) == j
+                and all(pathval.is_valid_item(a, i, valid) for i, a in enumerate(ret[4][0][2]))):
+            return None, "with %d items present a path returns %s" % (j, pathval.show(ret))
+        seen.add(j)
+    if seen != set(range(maxn + 1)):
+        return None, "item counts with a successful path: %s" % sorted(seen)
+    return "decided on %d paths by path-sensitive evaluation of the MIR body (every path returns Ok(new_j(first j validated items)) or an error)" % len(res), None
+
+
 def v_ladder(ctx, tname, adtp, maxn):
     """try_from_floats: the k-th next() is validated before use; when it is missing the k-component constructor is returned with the items so
     far in order; with all items present the full constructor.  Three spellings of a step are read:
@@ -34,6 +72,17 @@ def v_ladder(ctx, tname, adtp, maxn):
     f = ctx.facts
     it = f.hir_fn("try_from_floats", self_ty=adtp)
     ctx.fn(it)
+    # proof beats reference: when every path of the (loop-free) MIR body provably does what V-CTOR states, the spelling of the ladder is free
+    proof, why = v_paths(ctx, tname, adtp, maxn)
+    if proof:
+        ctx.extra.setdefault("v_ctor_path_evaluation", {})[tname] = proof
+        ctx.ob("V-CTOR", "%s::try_from_floats reads at most %d items" % (tname, maxn), True, proof)
+        for k in range(maxn):
+            ctx.ob("V-CTOR", "%s::try_from_floats step %d" % (tname, k), True, proof)
+        ctx.ob("V-CTOR", "%s::try_from_floats full arity" % tname, True, proof)
+        ctx.ob("V-CTOR", "%s::try_from_floats consists of the ladder only" % tname, True, proof)
+        return
+    ctx.extra.setdefault("v_ctor_path_evaluation", {})[tname] = "not proven (%s): decided by the ladder shape" % why
 
     def next_call(e_):
         e_ = strip(e_) if e_ else None
